@@ -186,7 +186,7 @@ pub struct EpisodeCfg<'a> {
     pub journal: Option<&'a mut dyn FnMut(&str)>,
 }
 
-fn panic_viol(kind: Kind, opname: &str, extra: &[&'static str]) -> Viol {
+pub fn panic_viol(kind: Kind, opname: &str, extra: &[&'static str]) -> Viol {
     let msg = take_last_panic().unwrap_or_else(|| "<panic without message>".to_string());
     let mut props = vec!["C04"];
     for p in extra {
